@@ -268,6 +268,14 @@ impl TypeChecker {
                     );
                 };
 
+                // Only local variables (and their fields) can be assigned
+                // to, not constants or context variables.
+                if path_value.kind != ValueKind::Local {
+                    return Err(
+                        self.error_cannot_assign_to_this_expression(p)
+                    );
+                }
+
                 let ty = path_value.final_type();
                 let ctx = ctx.with_type(ty);
                 let diverges = self.expr(scope, &ctx, e)?;
@@ -286,6 +294,14 @@ impl TypeChecker {
                         self.error_cannot_assign_to_this_expression(&c.path)
                     );
                 };
+
+                // Only local variables (and their fields) can be assigned
+                // to, not constants or context variables.
+                if path_value.kind != ValueKind::Local {
+                    return Err(
+                        self.error_cannot_assign_to_this_expression(&c.path)
+                    );
+                }
 
                 let ty = path_value.final_type();
                 let ctx = ctx.with_type(ty);
